@@ -10,6 +10,7 @@ MenuMulti == {R("get", <<"A">>), R("mget", <<"A", "B", "A">>), R("del", <<"A", "
 MenuQuit  == {R("get", <<"A">>), R("get", <<"B">>), R("ping", <<>>), R("quit", <<>>)}
 MenuU     == {R("get", <<"A">>), R("mget", <<"A", "U">>), R("ping", <<>>)}
 MenuFwd   == {R("get", <<"A">>), R("set", <<"B">>), R("mget", <<"A", "B">>)}
+MenuBad   == {R("get", <<"A">>), R("del", <<"A", "B">>), R("bad", <<>>)}
 MenuSingle == {R("get", <<"A">>), R("get", <<"B">>)}
 AKok   == {<<"ok", "", "">>}
 AKvals == {<<"ok", "", "">>, <<"nil", "", "">>, <<"mix", "", "">>}
@@ -30,6 +31,7 @@ GNodes == {"n1", "n2", "n3"}
 MenuGen == {R("get", <<"A">>), R("get", <<"B">>), R("set", <<"C">>), R("mget", <<"A", "B", "A">>), R("mget", <<"A", "A2">>),
             R("del", <<"A", "C">>), R("mset", <<"B", "C">>), R("ping", <<>>), R("unknown", <<>>)}
 MenuGenQ == MenuGen \cup {R("quit", <<>>)}
+MenuGenBad == MenuGen \cup {R("bad", <<>>)}
 MenuGenU == MenuGen \cup {R("mget", <<"A", "U">>), R("get", <<"U">>)}
 AKgenErr == {<<"ok", "", "">>, <<"nil", "", "">>, <<"err", "LOADING", "">>, <<"err", "WRONGTYPE", "">>,
              <<"moved", "", "n3">>, <<"ask", "", "n1">>, <<"ask", "", "n2">>}
